@@ -92,7 +92,7 @@ pub fn run(seed: u64, thorough: bool, out: &mut Out) {
     for i in 0..n {
         let mut r = Rng::new(seed, 2, i);
         let g = TreeGen { nq: 1 + r.below(2), nh: r.below(3), compounds: r.chance(1, 3), max_atoms: 6, conde: r.chance(1, 2) };
-        let p = g.prog(&mut r);
+        let p = if r.chance(1, 5) { out.stat("store_pass_scenarios"); TreeGen::store_pass(&mut r) } else { g.prog(&mut r) };
         let sols = solutions(&p);
         record(&p, Some(&sols), out, "written_order");
         // the same program under permutations of its conjunctions: same ground solutions required
